@@ -876,14 +876,27 @@ func freeRestartWhileStopping(r *lib.Rand) *freeRun {
 		f.leave("stopping callback")
 	})
 	<-began
-	func() { // allowed to panic: the loop has not stopped yet
+	// allowed to panic: the loop has usually not stopped yet. If it has, the call is an ordinary restart (Run() then serves the
+	// interval until the Stop() below), so it is made on a goroutine of its own; the scenario goes on only once the call has
+	// panicked, returned (Start) or entered its function (Run)
+	settled := make(chan struct{})
+	var once sync.Once
+	settle := func() { once.Do(func() { close(settled) }) }
+	go func() {
+		defer settle()
 		defer func() { recover() }()
 		if useRun {
-			f.loop.Run(func(*goja.Runtime) {})
+			f.loop.Run(func(*goja.Runtime) { settle() })
 		} else {
 			f.loop.Start()
 		}
 	}()
+	select {
+	case <-settled:
+	case <-time.After(3 * time.Second):
+		f.fail("free-scenario-did-not-finish", "Start()/Run() issued after StopNoWait() neither panicked nor returned within 3 s")
+		return f
+	}
 	time.Sleep(time.Duration(busy+1500) * time.Microsecond)
 	if _, ok := f.stop(r); !ok {
 		return f
@@ -904,6 +917,7 @@ func runFree(r *lib.Rand, n int, profile string, outPath string) ([]lib.ImplFail
 	defer func() { eventloop.VerifHook = nil }()
 	stats := map[string]int{}
 	seen := map[string]bool{}
+	hungScenarios := 0
 	var out []lib.ImplFailure
 	kinds := []func(*lib.Rand) *freeRun{freeLifecycle, freeLifecycle, freeBurst, freeCount, freeStopDuringRun, freeExpiredCleared, freeSelfClear, freeStopNoWaitAtQuiescence, freeTerminateBacklog, freeTerminatedStays, freeRestartWhileStopping}
 	bias := map[string][]int{"overlap": {0, 4, 10}, "fifo": {2}, "timers": {6, 5}, "count": {3, 7}, "stop": {4, 7}, "terminate": {5, 8, 9}}[profile]
@@ -916,15 +930,29 @@ func runFree(r *lib.Rand, n int, profile string, outPath string) ([]lib.ImplFail
 		seed := r.U64()
 		// a crash inside a goroutine of the library cannot be recovered: leave the scenario behind for the replay
 		lib.Breadcrumb(outPath, fmt.Sprintf("free-running scenario %d: kind index %d (0,1 lifecycle; 2 burst; 3 count; 4 stop-during-run; 5 expired-then-cleared; 6 self-clear; 7 stopnowait-at-quiescence; 8 terminate-with-backlog; 9 terminated-stays-terminated; 10 restart-while-stopping), scenario seed %d", i, k, seed))
-		func() {
+		doneCh := make(chan *freeRun, 1)
+		go func() {
+			var g *freeRun
 			defer func() {
 				if x := recover(); x != nil {
-					f = newFreeRun("panicked", "")
-					f.fail("free-api-call-panicked", fmt.Sprint(x))
+					g = newFreeRun("panicked", "")
+					g.fail("free-api-call-panicked", fmt.Sprint(x))
 				}
+				doneCh <- g
 			}()
-			f = kinds[k](lib.NewRand(seed))
+			g = kinds[k](lib.NewRand(seed))
 		}()
+		select {
+		case f = <-doneCh:
+		case <-time.After(40 * time.Second): // every wait inside a scenario is bounded by a few seconds: this is a call that does not return
+			f = newFreeRun("hung", fmt.Sprintf("kind index %d, scenario seed %d", k, seed))
+			f.fail("free-scenario-did-not-finish", "a scenario did not finish within 40 s (some API call never returned)")
+			hungScenarios++
+		}
+		if hungScenarios >= 3 {
+			stats["free:stopped-early"] = 1
+			i = n
+		}
 		stats["free:"+f.kind]++
 		if len(f.fails) > 0 { // whatever this scenario left running is not the next one's
 			time.Sleep(5 * time.Millisecond)
